@@ -121,7 +121,7 @@ impl Check for C20 {
         "C20"
     }
     fn cases(&self, tier: Tier) -> u64 {
-        tier.pick(640, 60_000)
+        tier.pick(2000, 60_000)
     }
     fn budget_s(&self, tier: Tier) -> u64 {
         tier.pick(40, 600)
@@ -233,7 +233,7 @@ impl Check for C21 {
         "C21"
     }
     fn cases(&self, tier: Tier) -> u64 {
-        tier.pick(480, 40_000)
+        tier.pick(1500, 40_000)
     }
     fn budget_s(&self, tier: Tier) -> u64 {
         tier.pick(45, 600)
@@ -403,7 +403,7 @@ impl Check for C22 {
         "C22"
     }
     fn cases(&self, tier: Tier) -> u64 {
-        tier.pick(640, 60_000)
+        tier.pick(2000, 60_000)
     }
     fn budget_s(&self, tier: Tier) -> u64 {
         tier.pick(40, 600)
